@@ -100,6 +100,32 @@ class PassAngle(object):
         return self.v
 
 
+CAL_SLACK = 19      # days: |JDE of the query - (365.2425*year + 1721060)|, decided by task_slack
+
+
+def task_slack(_):
+    """the finders place the query at 365.2425*year + 1721060; its real JDE is J0(Y) + doy with year = Y + doy/days(Y)"""
+    t = harness.Task('calendar slack')
+    Yc, doy = z3.Int('Yc'), z3.Real('doy')
+    greg = Yc >= 1583
+    leap = z3.If(greg, z3.And(Yc % 4 == 0, z3.Or(Yc % 100 != 0, Yc % 400 == 0)), Yc % 4 == 0)
+    J0 = z3.If(greg, z3.RealVal('1721424.5') + z3.ToReal(365 * (Yc - 1) + (Yc - 1) / 4 - (Yc - 1) / 100 + (Yc - 1) / 400),
+               z3.RealVal('1721422.5') + z3.ToReal(365 * (Yc - 1) + (Yc - 1) / 4))
+    year = z3.ToReal(Yc) + z3.If(leap, doy / 366, doy / 365)
+    dlt = J0 + doy - (z3.RealVal('365.2425') * year + z3.RealVal('1721060'))
+    s = z3.Solver()
+    s.set('timeout', 120000)
+    s.add(Yc >= -2000, Yc <= 4000, Yc != 1582, doy >= 1, doy < z3.If(leap, 367, 366), z3.Or(dlt > CAL_SLACK, dlt < -CAL_SLACK))
+    r = str(s.check())
+    t.ob('|JDE of a query - (365.2425*year + 1721060)| <= %d days for every calendar date (calendar written in the harness)' % CAL_SLACK, r, 0,
+         'calendar years -2000..4000 except 1582, every day of year (real)')
+    t.reach += 1
+    s2 = z3.Solver()
+    s2.add(Yc >= -2000, Yc <= 4000, Yc != 1582, doy >= 1, doy < z3.If(leap, 367, 366), z3.Or(dlt > CAL_SLACK - 2, dlt < -(CAL_SLACK - 2)))
+    t.ob('reachability twin: the slack bound is not vacuous (a deviation above %d days exists)' % (CAL_SLACK - 2), 'ok' if s2.check() == z3.sat else 'unknown', 0, '')
+    return t
+
+
 def task_finder(arg):
     pl, fname, a, b = arg
     t = harness.Task('%s.%s' % (pl, fname))
@@ -228,11 +254,11 @@ def task_finder(arg):
     t.samples.append({'finder': '%s.%s' % (pl, fname), 'a': a, 'b': b, 'sum_of_amplitudes_days': round(S, 4), 'constant_part_bound_days': round(M0, 4),
                       'k_range': [kmin, kmax]})
     mono = D0 is not None and b - D0 - 2 * S > 0
-    within = b / 2 + M0 + S <= b
+    within = b / 2 + M0 + S + CAL_SLACK <= b
     t.ob('results strictly increase with k: b - drift - 2*sum|amplitudes| > 0 (never backwards, none repeated; consecutive results b +- that variation: none skipped)'
          + '@%s.%s' % (pl, fname), 'unsat' if mono else 'sat', 0, 'b = %r, sum of amplitudes %.4f, drift %.2g' % (b, S, D0 or -1))
-    t.ob('result within one period of the query: b/2 + |constant part| + sum|amplitudes| <= b' + '@%s.%s' % (pl, fname), 'unsat' if within else 'sat', 0,
-         'b = %r, constant part %.4f, amplitudes %.4f' % (b, M0, S))
+    t.ob('result within one period of the query: b/2 + |constant part| + sum|amplitudes| + calendar slack <= b' + '@%s.%s' % (pl, fname), 'unsat' if within else 'sat', 0,
+         'b = %r, constant part %.4f, amplitudes %.4f, calendar slack %d d' % (b, M0, S, CAL_SLACK))
     t.reach += 2
     if not mono or not within:
         t.cand('C13.skel', {'kind': 'skeleton', 'planet': pl, 'func': fname, 'b': b, 'S': S + M0}, 'bounds do not give the skeleton clause')
@@ -246,6 +272,7 @@ def main(tier):
     fs = finders()
     chk.functions = ['%s.%s' % (pl, f) for pl, f, a, b in fs]
     chk.run(task_finder, fs, 'selection skeleton of %d finders' % len(fs))
+    chk.run(task_slack, [0], 'calendar slack')
     missing = [e for e in EXPECTED if e not in [(pl, f) for pl, f, a, b in fs]]
     if missing:
         tm = harness.Task('enumeration')
@@ -253,7 +280,7 @@ def main(tier):
             tm.ob('finder %s.%s found in the encodable shape (a, b constants, jde0, corr)' % e, 'unknown', 0.0, 'source shape')
         chk.add_tasks([tm])
     chk.bounds = {'query': 'every fractional year (symbolic real); accepted range -2000..4000', 'finders': len(fs)}
-    chk.stubs = ['epoch.year() -> a symbolic real (its relation to the JDE is C16)', 'sin/cos -> boxes in [-1, 1] (same argument, same variable)',
+    chk.stubs = ['epoch.year() -> a symbolic real; its relation to the JDE: within 19 days of 365.2425*year + 1721060 (solver-decided on the calendar written in the harness; the helper itself is C16)', 'sin/cos -> boxes in [-1, 1] (same argument, same variable)',
                  'Angle inside the planet module -> pass-through (arguments of boxed sines are irrelevant)', 'Epoch(number) -> stores the JDE (C02)']
     chk.outside = ['that the returned instant IS an event of the VSOP87 positions (first sentence of the statement): values of the series, not encodable',
                    'perihelion_aphelion and passage_nodes (three series evaluations + interpolation)', 'the reported elongation angle',
